@@ -106,6 +106,9 @@ def make_case(seed, index, tier):
             'twins': rng.random() < 0.4, 'reused': rng.random() < 0.4,
             'nones': rng.random() < 0.25, 'early': rng.random() < 0.3,
             'odd': rng.random() < 0.25,
+            # a clock that absorbs every delay: subscriptions, puts and closes of "different
+            # times" all happen at one and the same date, in successive batches of the loop
+            'start': rng.choice([1.7e18, 2.0 ** 70]) if rng.random() < 0.06 else 0,
             'scenario': {'producers': producers, 'consumers': consumers}}
 
 
@@ -271,6 +274,7 @@ def build_for(case):
     scenario = case['scenario']
 
     def build(arena):
+        arena.start = case.get('start', 0)
         channel = Channel()
         wrap = Twin if case.get('twins') else odd if case.get('odd') else str
         if case.get('nones'):
